@@ -26,6 +26,9 @@ impl futures_io::AsyncWrite for SharedWriter {
     fn poll_write(self: std::pin::Pin<&mut Self>, cx: &mut Context<'_>, buf: &[u8]) -> Poll<std::io::Result<usize>> {
         std::pin::Pin::new(&mut *self.0.borrow_mut()).poll_write(cx, buf)
     }
+    fn poll_write_vectored(self: std::pin::Pin<&mut Self>, cx: &mut Context<'_>, bufs: &[std::io::IoSlice<'_>]) -> Poll<std::io::Result<usize>> {
+        std::pin::Pin::new(&mut *self.0.borrow_mut()).poll_write_vectored(cx, bufs)
+    }
     fn poll_flush(self: std::pin::Pin<&mut Self>, cx: &mut Context<'_>) -> Poll<std::io::Result<()>> {
         std::pin::Pin::new(&mut *self.0.borrow_mut()).poll_flush(cx)
     }
@@ -643,6 +646,93 @@ fn server_level(cfg: &RunCfg) -> Outcome {
     Outcome { nontrivial: !want.is_empty(), sample: if cfg.index < 1 { Some(json!({"accepted": want.len(), "delivered": got.len(), "client_reset": reset})) } else { None }, ..Default::default() }
 }
 
+/// A long, busy stream: 300-700 events, the queue topped up before every poll of the writer
+/// so that it is never empty, the sink yielding after every write. Every accepted event
+/// must come out exactly once, in order - however many the writer has handled in a row.
+fn sustained(_cfg: &RunCfg) -> Outcome {
+    let (mut sender, resp) = Response::event_stream();
+    let mut writer = ScriptWriter::new(Pieces::Whole);
+    writer.pending_64 = gen::pick(&[32u32, 48]);
+    let shared = std::rc::Rc::new(std::cell::RefCell::new(writer));
+    let mut sw = SharedWriter(shared.clone());
+    let mut fut: std::pin::Pin<Box<dyn Future<Output = Result<(), servlin::internal::HttpError>>>> = Box::pin(async move {
+        let r = write_http_response(&mut sw, &resp, false).await;
+        drop(resp);
+        r
+    });
+    let cw = Arc::new(CountWake(AtomicU64::new(1)));
+    let waker = Waker::from(cw.clone());
+    let total = 300 + gen::below(401) as usize;
+    let mut accepted: Vec<String> = Vec::new();
+    let mut next = 0usize;
+    let mut result: Option<Result<(), String>> = None;
+    let mut polls = 0u64;
+    let mut delivered_chunks_seen = 0usize;
+    while result.is_none() {
+        polls += 1;
+        if polls > 2_000_000 {
+            return Outcome::fail("C11.delivery_progress", "the response writer does not finish".to_string());
+        }
+        sim_core::heartbeat();
+        // top up: keep between 1 and ~8 events ahead of what has been written out
+        let written = shared.borrow().out.windows(6).filter(|w| w == b"data: ").count();
+        delivered_chunks_seen = written;
+        while next < total && next < written + 1 + gen::below(8) as usize {
+            if !sender.is_connected() {
+                return Outcome::fail("C11.stream_survives", format!("the sender became disconnected after {next} events although the client is reading and the queue was never more than 9 deep"));
+            }
+            let data = format!("#{next} {}", "s".repeat(gen::below(40) as usize));
+            sender.send(Event::Message(data.clone()));
+            if sender.is_connected() {
+                accepted.push(data);
+            }
+            next += 1;
+        }
+        if next >= total && sender.is_connected() {
+            sender.disconnect();
+        }
+        let mut cx = Context::from_waker(&waker);
+        match catch_unwind(AssertUnwindSafe(|| fut.as_mut().poll(&mut cx))) {
+            Err(_) => {
+                let info = sim_core::take_last_panic();
+                std::mem::forget(fut);
+                return Outcome::fail("C11.no_panic", info.map(|i| format!("{} at {}", i.message, i.location)).unwrap_or_default());
+            }
+            Ok(Poll::Ready(r)) => result = Some(r.map_err(|e| format!("{e:?}"))),
+            Ok(Poll::Pending) => {}
+        }
+    }
+    let _ = delivered_chunks_seen;
+    if let Some(Err(e)) = &result {
+        return Outcome::fail("C11.stream_survives", format!("the response writer failed with {e} on a healthy sink after {} accepted events", accepted.len()));
+    }
+    let out = shared.borrow().out.clone();
+    let head_end = match out.windows(4).position(|w| w == b"\r\n\r\n") {
+        Some(p) => p + 4,
+        None => return Outcome::fail("C11.wellformed", "no response head".to_string()),
+    };
+    let d = decode(&out[head_end..]);
+    if !matches!(d.end, ChunkedEnd::Complete { .. }) {
+        return Outcome::fail("C11.terminating_chunk", format!("all senders are gone, the client read everything, but the stream ends with {:?}", d.end));
+    }
+    let mut blocks = SseParser::default();
+    let mut off = 0;
+    for l in &d.chunk_lens {
+        blocks.feed_chunk(&d.data[off..off + l]);
+        off += l;
+    }
+    let got: Vec<&str> = blocks.events.iter().map(|e| e.data.as_str()).collect();
+    if got.len() != accepted.len() || got.iter().zip(accepted.iter()).any(|(a, b)| a != b) {
+        let first = got.iter().zip(accepted.iter()).position(|(a, b)| a != b);
+        return Outcome::fail(
+            "C11.exactly_once_in_order",
+            format!("{} events were accepted over a busy stream, the client dispatches {} (first difference at {:?}: got {:?}, expected {:?})", accepted.len(), got.len(), first, first.map(|i| got[i]), first.map(|i| accepted[i].as_str())),
+        );
+    }
+    gen::count("probe.sustained_stream_over_256_events");
+    Outcome { nontrivial: true, case_hash: sim_core::tape::mix(total as u64, polls), ..Default::default() }
+}
+
 pub fn spec() -> PropertySpec {
     let mut comp = components_stream();
     comp["server_level"] = components_server();
@@ -654,9 +744,10 @@ pub fn spec() -> PropertySpec {
             Scenario { name: "c11.sender_writer", property: "C11", func: l1, runs_quick: 600_000, runs_thorough: 15_000_000, doc: "level 1" },
             Scenario { name: "c11.interleavings", property: "C11", func: interleavings, runs_quick: 13 + 169 + 2197 + 28_561 + 371_293, runs_thorough: 13 + 169 + 2197 + 28_561 + 371_293 + 4_826_809 + 62_748_517, doc: "EVERY interleaving of up to 5 (quick) / 7 (thorough) steps over writer poll and {send, clone, disconnect, drop} of up to 3 senders" },
             Scenario { name: "c11.oversize", property: "C11", func: l1_oversize, runs_quick: 60_000, runs_thorough: 1_000_000, doc: "events may exceed the 65528-byte read buffer" },
+            Scenario { name: "c11.sustained", property: "C11", func: sustained, runs_quick: 3_000, runs_thorough: 100_000, doc: "300-700 events over one busy stream whose queue is never empty" },
             Scenario { name: "c11.server", property: "C11", func: server_level, runs_quick: 120_000, runs_thorough: 3_000_000, doc: "level 2" },
         ],
-        required_probes: vec!["probe.two_or_more_events_delivered", "probe.several_senders", "probe.queue_overrun", "probe.sender_outlived_client", "probe.client_reset_during_stream", "probe.slow_client_backpressure", "probe.block_size_on_digit_boundary", "probe.type_with_line_break_offered", "probe.client_half_closed_and_keeps_reading"],
+        required_probes: vec!["probe.two_or_more_events_delivered", "probe.several_senders", "probe.queue_overrun", "probe.sender_outlived_client", "probe.client_reset_during_stream", "probe.slow_client_backpressure", "probe.block_size_on_digit_boundary", "probe.type_with_line_break_offered", "probe.client_half_closed_and_keeps_reading", "probe.sustained_stream_over_256_events"],
         components: comp,
         assumptions: vec![
             "sender threads are replaced by actors whose steps are atomic: EventSender::send is one non-blocking channel operation",
